@@ -145,8 +145,18 @@ def build_all(harness=("fn",)):
 
 def run_lines(binary, lines, timeout=1800, env=None):
     inp = "\n".join(lines) + "\n"
-    p = subprocess.run([binary], input=inp, stdout=subprocess.PIPE, stderr=subprocess.PIPE, text=True,
-                       timeout=timeout, env=env)
+    is_fn = os.path.basename(binary) == "fn"
+    try:
+        p = subprocess.run([binary], input=inp, stdout=subprocess.PIPE, stderr=subprocess.PIPE, text=True,
+                           timeout=(min(timeout, 120 + len(lines) // 4) if is_fn else timeout), env=env)
+    except subprocess.TimeoutExpired:
+        if not is_fn:
+            raise
+        # the implementation wedged the driver (a call that never returns): isolate the case(s)
+        if len(lines) == 1:
+            CRASH_LOG[lines[0]] = "HANG: the call sequence did not return"
+            return ["2"]
+        return isolate_crashes(binary, lines, "HANG", env)
     out = p.stdout.split("\n")
     if out and out[-1] == "":
         out.pop()
@@ -172,9 +182,9 @@ def isolate_crashes(binary, lines, batch_stderr, env=None):
     def one(line):
         try:
             q = subprocess.run([binary], input=line + "\n", stdout=subprocess.PIPE, stderr=subprocess.PIPE, text=True,
-                               timeout=120, env=env)
+                               timeout=30, env=env)
         except subprocess.TimeoutExpired:
-            CRASH_LOG[line] = "timeout"
+            CRASH_LOG[line] = "HANG: the call sequence did not return within 30 s"
             return "2"
         o = q.stdout.split("\n")
         if q.returncode != 0 or not o or o[0] == "":
